@@ -12,6 +12,7 @@ to the harness for replay on the real float code, ``unknown`` = inconclusive).
 """
 import math
 import os
+import sys
 import time
 import traceback
 from fractions import Fraction
@@ -341,6 +342,7 @@ class Ctx:
         self.alt_timeout_ms = 4000
         self.lemmas = list(lemmas)
         self.pw_mode = False
+        self.concretised = []
         self.cvc5_budget = int(os.environ.get("VERIF_CVC5_PER_OBLIGATION", "0") or 0)
         self.cvc5 = {}
         self.cvc5_s = 0.0
@@ -374,6 +376,7 @@ class Ctx:
         self.new_alts = []
         self.claims = []
         self.notes = []
+        self.concretised = []
 
     def declare_positive(self, *names):
         """Inputs known > 0 by the precondition: monomial factors in them are dropped from sign conditions."""
@@ -1028,7 +1031,25 @@ class Sym:
         return angle.mod(s, o)
 
     def __floordiv__(s, o):
-        raise NotImplementedError("floor division of a symbolic real")
+        o = Sym._co(o)
+        return CTX.const(floor_int(s / o))
+
+    def __rfloordiv__(s, o):
+        return CTX.const(floor_int(Sym._co(o) / s))
+
+    def __divmod__(s, o):
+        o = Sym._co(o)
+        k = floor_int(s / o)
+        return CTX.const(k), s - o * k
+
+    def __floor__(s):
+        return floor_int(s)
+
+    def __ceil__(s):
+        return -floor_int(-s)
+
+    def __trunc__(s):
+        return floor_int(s) if bool(s >= 0) else -floor_int(-s)
 
     # -- order
     def signpoly(s):
@@ -1093,6 +1114,13 @@ class Sym:
     def __float__(s):
         if s.is_const():
             return float(s.as_fraction())
+        # Concretisation: a C-level routine (or float()) asked for a double.  When the request comes from the code
+        # under test the path would silently be specialised to the sample, so it is recorded and the path is
+        # classed as a model failure (harness error), never as a verdict.
+        f = sys._getframe(1)
+        fn = f.f_code.co_filename
+        if "/coxeter/" in fn and "/symx/" not in fn and "/harness/" not in fn:
+            CTX.concretised.append("%s:%d" % (fn, f.f_lineno))
         return float(CTX.value(s))
 
     def __int__(s):
@@ -1108,7 +1136,9 @@ class Sym:
         return int(f)
 
     def __round__(s, n=None):
-        raise NotImplementedError("round() of a symbolic real")
+        if n:
+            raise NotImplementedError("round() of a symbolic real to decimals")
+        return rint_int(s)
 
     def conjugate(s):
         return s
@@ -1158,6 +1188,8 @@ class Sym:
             if s.is_const() and s.as_fraction() < 0:
                 return NAN
             return _sqrt(s)
+        if float_pow and not bool(s >= 0):
+            return NAN  # x ** (1/3) of a negative double is nan in the real code
         # odd root: root(n/d) = root(n * d**(k-1)) / d
         n = s.num
         den = {}
@@ -1175,10 +1207,6 @@ class Sym:
         elif len(n) <= 60 and _nvars(n) <= 7 and _perfect_power(n, k) is not None:
             out = _perfect_power(n, k)
         else:
-            if float_pow:
-                # x ** (1/3) of a negative double is nan in the real code
-                if not bool(Sym(n) >= 0):
-                    return NAN
             out = Sym(c.root_atom(n, k).gen)
         for f, e in den.items():
             out = out / (Sym(f) ** e)
@@ -1690,6 +1718,43 @@ def _sample_ok(ctx, sample, conds, atoms):
         ctx.sample, ctx.atoms, ctx.vals, ctx.fvals = saved
 
 
+def floor_int(x):
+    """floor of a (symbolic) real as a Python int, concolically: the integer is found by comparisons whose
+    sequence depends only on earlier decisions (doubling, then bisection), so every comparison is a recorded
+    branch and the path condition pins k <= x < k + 1; other integers are other paths."""
+    x = Sym._co(force(x))
+    if x.is_const():
+        return math.floor(x.as_fraction())
+    if bool(x >= 0):
+        lo, hi = 0, 1
+        while bool(x >= hi):
+            lo, hi = hi, hi * 2
+            if hi > 1 << 40:
+                raise NotImplementedError("floor of a huge symbolic real")
+    else:
+        lo, hi = -1, 0
+        while bool(x < lo):
+            lo, hi = lo * 2, lo
+            if lo < -(1 << 40):
+                raise NotImplementedError("floor of a huge symbolic real")
+    while hi - lo > 1:
+        mid = (lo + hi) // 2
+        if bool(x >= mid):
+            lo = mid
+        else:
+            hi = mid
+    return lo
+
+
+def rint_int(x):
+    """round-half-to-even of a symbolic real (numpy rint / Python round)."""
+    x = Sym._co(force(x))
+    k = floor_int(x + Fraction(1, 2))
+    if k % 2 and bool(x + Fraction(1, 2) == k):
+        k -= 1
+    return k
+
+
 def explore(ctx, fn, pre=(), max_paths=64, budget_s=600.0, first_sample=None, on_path=None):
     """Concolic exploration of fn() under precondition ``pre`` (list of Cond/SymBool).
 
@@ -1747,6 +1812,8 @@ def explore(ctx, fn, pre=(), max_paths=64, budget_s=600.0, first_sample=None, on
             inner = tb[-1].filename if tb else ""
             if isinstance(ex, NotImplementedError) or ("/symx/" in inner and not isinstance(ex, (ValueError, ArithmeticError, RuntimeError))):
                 st = "shim-error"  # the model, not the code under test, failed: a harness error, never a verdict
+        if ctx.concretised and st in ("ok", "raise"):
+            st, err = "shim-error", "symbolic real concretised by float() in the code under test at " + ", ".join(sorted(set(ctx.concretised))[:4])
         if ctx.pos < len(ctx.prefix) and st != "abort":
             if any(a.kind == "opaque" for a in atoms) or any(a.kind == "opaque" for a in ctx.atoms):
                 # the solver's model of an uninterpreted function value differs from its real value: the path cannot be followed
